@@ -24,7 +24,10 @@ REQUIRED_FLAGS = ["track_channel_not_zero", "configuration_history", "rest_cross
                   "trailing_empty_bar", "velocity_binned", "unfused_all", "no_running_values", "non_default_note_values",
                   "bar_by_bar_with_state_dictionary", "rejected_call_then_repeated_with_the_valid_bar"]
 
-SIG = {"44": (4, 4), "34": (3, 4), "24": (2, 4), "68": (6, 8), "58": (5, 8), "22": (2, 2), "38": (3, 8)}   # a 36-tick note fills a 3/8 bar
+SIG = {"44": (4, 4), "34": (3, 4), "24": (2, 4), "68": (6, 8), "58": (5, 8), "22": (2, 2), "38": (3, 8),
+       # every other way of writing a whole number of eighths between 2 and 16 with numerator or denominator at a limit
+       "1_4": (1, 4), "1_2": (1, 2), "1_1": (1, 1), "18_16": (18, 16), "2_8": (2, 8), "16_8": (16, 8), "4_16": (4, 16),
+       "3_2": (3, 2), "2_1": (2, 1), "9_8": (9, 8), "15_8": (15, 8), "32_16": (32, 16), "7_8": (7, 8), "12_8": (12, 8)}   # a 36-tick note fills a 3/8 bar
 FL = list(itertools.product((True, False), repeat=4))   # running, fuse_track, fuse_value, fuse_velocity
 
 
@@ -34,7 +37,7 @@ def blen(sig):
 
 def plans(B):
     for k in range(1, B + 1):
-        for pl in itertools.product([None] + list(SIG), repeat=k):
+        for pl in itertools.product([None] + list(SIG)[:7], repeat=k):
             if None in pl[1:]:
                 continue
             yield list(pl)
@@ -78,6 +81,10 @@ def units(ctx):
         yield ("pause", K)
     for k in range(4):
         yield ("barwise", k)
+    for s_ in list(SIG)[7:]:
+        yield ("sigs", s_)
+    for o1 in range(0, 48):
+        yield ("onsets", o1)
     for vb in (1, 2, 3, 5, 8, 16, 17, 19, 32, 33, 64, 127, 128):
         yield ("velsweep", vb)
     for vb in ([1, 2, 3, 4, 8] if ctx["tier"] == "quick" else [1, 2, 3, 4, 5, 8, 15, 16, 19, 32, 64, 100, 127]):
@@ -85,6 +92,19 @@ def units(ctx):
             for pr in range(3):
                 for nv in range(3):
                     yield ("c", vb, nt, pr, nv)
+
+
+STEPS = (24, 16, 12, 8, 6, 4, 3, 2)      # the tokeniser's default step sizes
+
+
+def greedy_ok(r):
+    """can a rest of r ticks be written largest-step-first with the default step sizes?"""
+    while r > 0:
+        s_ = next((x for x in STEPS if x <= r), None)
+        if s_ is None:
+            return False
+        r -= s_
+    return True
 
 
 def alphabet(plan, pitches=(21, 108), vel=64):
@@ -164,6 +184,26 @@ def gen_cases(unit, ctx):
                 yield piece(plan, [t0], 1, cfg, vb)
                 yield piece(plan, [t0, t1], 0, cfg, vb)
                 yield piece(plan, [t0, t1, t2], 1, cfg, vb)
+        return
+    if kind == "sigs":
+        # signatures written in unusual ways (1/4, 1/1, 18/16, 32/16, 2/1 ...): alone, after 4/4, before 3/4
+        s_ = unit[1]
+        bl = blen(SIG[s_])
+        for plan in ([s_], [s_, s_], ["44", s_, "34"], [s_, "68"]):
+            st, _ = grid(plan)
+            tr = [(st[b], 12, 60 + b, 64) for b in range(len(plan))] + [(st[b] + 12, 6, 70, 90) for b in range(len(plan)) if st[b + 1] - st[b] >= 24]
+            for cfg in (FL[0], FL[15], FL[6]):
+                yield piece(plan, [tr], 1, cfg, 2)
+                yield piece(plan, [tr, [(st[-1] - 12, 12, 40, 64)]], 0, cfg, 1)
+        return
+    if kind == "onsets":
+        # two notes at EVERY pair of onsets of a 4/4 bar whose three rests (before, between, after) the tokeniser's step
+        # sizes can express (largest step first, e.g. 11 = 8 + 3, 19 = 16 + 3; 9 = 8 + 1 cannot)
+        o1 = unit[1]
+        for o2 in range(o1 + 1, 96):
+            if all(greedy_ok(r) for r in (o1, o2 - o1, 96 - o2)):
+                for cfg in (FL[0], FL[15]):
+                    yield piece(["44"], [[(o1, 4, 60, 64), (o2, 4, 62, 80)]], 1, cfg, 1)
         return
     if kind == "barwise":
         # the piece handed over bar by bar with one state dictionary (as the repository's own round-trip tests do), with
